@@ -187,7 +187,7 @@ func check(c Case) *vfrun.Failure {
 
 func gen(t *rapid.T) Case {
 	var c Case
-	c.Project = rapid.SampledFrom(proj.Names()).Draw(t, "project")
+	c.Project = kit.DrawProject(t)
 	srvs, err := kit.Servers(c.Project)
 	if err != nil {
 		t.Fatalf("harness: %v", err)
